@@ -12,6 +12,7 @@ INVARIANT LawTablesInherit
 INVARIANT LawNumericalRefines
 INVARIANT LawMatrixExtends
 INVARIANT LawExpectDomain
+INVARIANT LawEquivNeutral
 INVARIANT LawSingleVerdict
 INVARIANT LawDefaultsComplete
 INVARIANT LawSuppressMonotone
